@@ -130,8 +130,12 @@ def nameStep (line : String) : String :=
       let r4 := r3.1.register 0 "d/e" (some .write) false none
       let r5 := r4.1.setattr 0 "d/e" (.int 3)
       let r6 := r5.1.dotGet 0 ["d", "e"]
+      -- afterwards the namespace d itself is registered as a key, written and read by attribute
+      let r7 := r6.1.register 0 "d" (some .write) false none
+      let r8 := r7.1.setattr 0 "d" (.int 4)
+      let r9 := r8.1.getattr 0 "d"
       "R " ++ String.intercalate "|" [resStr r0.2, resStr r1.2, resStr r2.2, resStr r3.2, resStr (r3.1.sget a), reg,
-                                      resStr r6.2]
+                                      resStr r6.2, resStr r9.2]
   | ["cshare", nsA, kA, nsB, kB] =>
       -- two clients: A writes 1 through kA, B writes 2 through kB, A reads: same location iff same absolute name
       let s0 : BB := ({} : BB).newClient (d nsA) |>.1
